@@ -203,7 +203,7 @@ func (r *ReadGroup) Get(t Tag) string {
 func (r *ReadGroup) Set(t Tag, value string) error {
 	switch t {
 	case idTag:
-		r.name = value
+		return r.SetName(value)
 	case centerTag:
 		r.center = value
 	case descriptionTag:
